@@ -164,7 +164,7 @@ Proof.
   assert (Hgen : forall bs l r, get_counted item (S (length bs)) bs = Some (l, r) -> forallb q l = true).
   { intros bs l0 r0 Hc. eapply (get_counted_shape q item Hi); eauto. }
   assert (Hroot : forall bs l r,
-    (if match hi with Some h => h - lo <? 65536 | None => false end
+    (if match hi with Some h => h <? 65536 | None => false end
      then match hi with
           | Some h => match get_bits (range_bits (h - lo + 1)) bs with
                       | Some (n, r) => if n <=? h - lo then get_items item (Z.to_nat (n + lo)) r else None
@@ -174,7 +174,7 @@ Proof.
           end
      else get_counted item (S (length bs)) bs) = Some (l, r) -> forallb q l = true).
   { intros bs l0 r0 Hc.
-    destruct (match hi with Some h => h - lo <? 65536 | None => false end); [|eauto].
+    destruct (match hi with Some h => h <? 65536 | None => false end); [|eauto].
     destruct hi as [h|]; [|discriminate].
     destruct (get_bits (range_bits (h - lo + 1)) bs) as [[n r1]|]; [|discriminate].
     destruct (n <=? h - lo); [|discriminate].
